@@ -1112,7 +1112,7 @@ pub fn run(ctx: &Ctx) {
             let mode = *g.rng.pick(&[0u8, 0, 1, 2]);
             trees.push(Case::Tree(g.def(0, maxdepth, mode)));
         }
-        nbins = if ctx.tier_thorough { 16 } else { 8 };
+        nbins = 16;
     }
     for c in &infl { let imp = exec_infl(c); out_i.case(&c.enc(), &imp, matches!(c, Case::Infl(_, st, _) if *st != 0)); }
     out_i.finish("Inflector model vs the real crate: every string up to length 5 over {a,B,1,_,-} in three styles, plus identifiers, names and prefixes drawn from the tree generator's vocabularies and random ASCII; non-trivial = style is not Preserve; distinct by hash");
